@@ -146,6 +146,7 @@ type c17Up struct {
 	PassHost   bool
 	StaticCode int
 	UpName     string // fake upstream name (http)
+	URIPath    string // alpha config: path part of the upstream's uri (must not show up in forwarded requests)
 	Dir        string // file upstreams: directory served
 }
 
